@@ -32,7 +32,7 @@ func newRtView(in *inst) (*rtView, string) {
 	if v.initFn == nil {
 		return nil, "method Init not found"
 	}
-	if in.repo != nil {
+	if in.repo != nil || in.canonOf != nil {
 		// the checked-in instance: which optional closures exist is read off the file
 		in.Cfg.Bools["HasDot"] = v.cl["matchDot"] != nil
 		in.Cfg.Bools["HasString"] = v.cl["matchString"] != nil
